@@ -99,6 +99,22 @@ type fakeCtx struct {
 
 func (c fakeCtx) Actor() actor.Actor { return c.a }
 
+// handler is the client.ISessionsHandler of the front-end; its callbacks run
+// whatever script the current op installed (nothing by default).
+type handler struct{ w *world }
+
+func (h *handler) Process(*cs.FrontSession, *msgs.ClientMsg) {}
+func (h *handler) OnSessionAdd(fs *cs.FrontSession) {
+	if f := h.w.onAdd; f != nil {
+		f(fs.Session.GetId())
+	}
+}
+func (h *handler) OnSessionRemove(fs *cs.FrontSession) {
+	if f := h.w.onRemove; f != nil {
+		f(fs.Session.GetId())
+	}
+}
+
 // ---------------------------------------------------------------- world
 
 type world struct {
@@ -111,6 +127,8 @@ type world struct {
 	pushes     []pushTuple
 	uids       map[*channel.Channel]int
 	slots      map[string]string
+	onAdd      func(id uint32)
+	onRemove   func(id uint32)
 }
 
 var (
@@ -124,6 +142,7 @@ func newWorld(local string) *world {
 	nw.ns = service.NewService()
 	nw.ns.Name = local
 	nw.sessions = impls.NewClientSessions(local)
+	nw.sessions.SetHandler(&handler{w: nw})
 	nw.ns.AddComponent("sessions", impls.NewSessionsComponent(nw.sessions))
 	nw.svc = channel.NewChannelService(nw.ns)
 	channel.SetPushImpl(&recorder{w: nw, real: realImpl})
@@ -173,6 +192,34 @@ func (w *world) showDl() string {
 		ss[i] = fmt.Sprintf("%d:%s:%s", d.id, d.route, hx.Hex(d.data))
 	}
 	return "dl=" + strings.Join(ss, ",")
+}
+
+// bcast broadcasts on ch (nil = no such channel) and renders what the push layer was handed.
+func (w *world) bcast(ch *channel.Channel, route, msg string) string {
+	if ch == nil {
+		return "nil"
+	}
+	w.pushes = nil
+	ch.PushMessage(route, msg)
+	ps := w.pushes
+	sort.SliceStable(ps, func(i, j int) bool { return ps[i].front < ps[j].front })
+	// tuples with an empty id list reach nobody: whether they are sent is not
+	// compared, only that no front is addressed twice (over all tuples)
+	var sb strings.Builder
+	n, once, seen := 0, 1, map[string]bool{}
+	for _, p := range ps {
+		if seen[p.front] {
+			once = 0
+		}
+		seen[p.front] = true
+		if len(p.ids) > 0 {
+			n++
+			fmt.Fprintf(&sb, " ; push front=%s ids=%s route=%s msg=%s", p.front, showIds(p.ids), p.route, p.msg)
+		} else {
+			stat("bcast.empty-tuple")
+		}
+	}
+	return fmt.Sprintf("n=%d%s | once=%d %s", n, sb.String(), once, w.showDl())
 }
 
 // ---------------------------------------------------------------- op interpreter
@@ -295,31 +342,124 @@ func guarded(ws []string) string {
 			if !ok1 || !ok2 || !ok3 {
 				return "bad-op"
 			}
-			ch := w.svc.GetChannel(w.name(c))
-			if ch == nil {
-				return "nil"
+			return w.bcast(w.svc.GetChannel(w.name(c)), route, msg)
+		case "joinrange", "leaverange":
+			c, ok1 := hx.KV(ws, "ch")
+			f, ok2 := hx.KV(ws, "front")
+			lo, ok3 := u32(ws, "lo")
+			hi, ok4 := u32(ws, "hi")
+			dir, ok5 := hx.KV(ws, "dir")
+			if !ok1 || !ok2 || !ok3 || !ok4 || (hi > lo && hi-lo > 5000) {
+				return "bad-op"
 			}
-			ch.PushMessage(route, msg)
-			ps := w.pushes
-			sort.SliceStable(ps, func(i, j int) bool { return ps[i].front < ps[j].front })
-			// tuples with an empty id list reach nobody: whether they are sent is not
-			// compared, only that no front is addressed twice (over all tuples)
-			var sb strings.Builder
-			n, once, seen := 0, 1, map[string]bool{}
-			for _, p := range ps {
-				if seen[p.front] {
-					once = 0
+			if ws[0] == "joinrange" {
+				for x := lo; x < hi; x++ {
+					w.uid(w.svc.AddToChannel(w.name(c), f, x))
 				}
-				seen[p.front] = true
-				if len(p.ids) > 0 {
-					n++
-					fmt.Fprintf(&sb, " ; push front=%s ids=%s route=%s msg=%s", p.front, showIds(p.ids), p.route, p.msg)
-				} else {
-					stat("bcast.empty-tuple")
+				return "ok"
+			}
+			if !ok5 || (dir != "up" && dir != "down") {
+				return "bad-op"
+			}
+			if dir == "up" {
+				for x := lo; x < hi; x++ {
+					w.svc.LeaveFromChannel(w.name(c), f, x)
+				}
+			} else {
+				for x := hi; x > lo; x-- {
+					w.svc.LeaveFromChannel(w.name(c), f, x-1)
 				}
 			}
-			return fmt.Sprintf("n=%d%s | once=%d %s", n, sb.String(), once, w.showDl())
+			return "ok"
+		case "leaveids":
+			c, ok1 := hx.KV(ws, "ch")
+			f, ok2 := hx.KV(ws, "front")
+			ids, ok3 := idList(ws)
+			if !ok1 || !ok2 || !ok3 {
+				return "bad-op"
+			}
+			for _, x := range ids {
+				w.svc.LeaveFromChannel(w.name(c), f, x)
+			}
+			return "ok"
+		case "saddpush":
+			v, ok1 := hx.KV(ws, "ids")
+			route, ok2 := hx.KV(ws, "route")
+			data, ok3 := hexArg(ws, "data")
+			if !ok1 || !ok2 || !ok3 {
+				return "bad-op"
+			}
+			var tmpl []int64 // -1 = self
+			if v != "" {
+				for _, p := range strings.Split(v, ",") {
+					if p == "self" {
+						tmpl = append(tmpl, -1)
+					} else if n, ok := u32([]string{"x=" + p}, "x"); ok {
+						tmpl = append(tmpl, int64(n))
+					} else {
+						return "bad-op"
+					}
+				}
+			}
+			w.onAdd = func(id uint32) {
+				ids := make([]uint32, len(tmpl))
+				for i, t := range tmpl {
+					if t < 0 {
+						ids[i] = id
+					} else {
+						ids[i] = uint32(t)
+					}
+				}
+				w.sessions.PushMsg(&msgs.PushMsg{Ids: ids, Route: route, Data: data})
+			}
+			fs := &fakeSession{w: w}
+			w.sessions.AddSession(fs)
+			w.onAdd = nil
+			w.fakes[fs.id] = fs
+			return fmt.Sprintf("id=%d %s %s", fs.id, w.live(), w.showDl())
+		case "saddbcast":
+			c, ok1 := hx.KV(ws, "ch")
+			route, ok2 := hx.KV(ws, "route")
+			msg, ok3 := hx.KV(ws, "msg")
+			if !ok1 || !ok2 || !ok3 {
+				return "bad-op"
+			}
+			inner := "callback-not-run"
+			w.onAdd = func(id uint32) {
+				ch := w.svc.AddToChannel(w.name(c), w.local, id)
+				inner = w.uid(ch) + " bcast: " + w.bcast(ch, route, msg)
+			}
+			fs := &fakeSession{w: w}
+			w.sessions.AddSession(fs)
+			w.onAdd = nil
+			w.fakes[fs.id] = fs
+			return fmt.Sprintf("id=%d %s %s", fs.id, w.live(), inner)
+		case "sdelpush":
+			id, ok0 := u32(ws, "id")
+			ids, ok1 := idList(ws)
+			route, ok2 := hx.KV(ws, "route")
+			data, ok3 := hexArg(ws, "data")
+			if !ok0 || !ok1 || !ok2 || !ok3 {
+				return "bad-op"
+			}
+			w.onRemove = func(uint32) {
+				w.sessions.PushMsg(&msgs.PushMsg{Ids: ids, Route: route, Data: data})
+			}
+			fs := w.fakes[id]
+			before := w.live()
+			if fs == nil {
+				fs = &fakeSession{id: id, w: w}
+			}
+			w.sessions.RemoveSession(fs)
+			w.onRemove = nil
+			delete(w.fakes, id)
+			after := w.live()
+			if before == after {
+				return "missing " + after + " " + w.showDl()
+			}
+			return "ok " + after + " " + w.showDl()
 		case "alloctemp":
+
 			k, ok := hx.KV(ws, "slot")
 			if !ok {
 				return "bad-op"
@@ -526,7 +666,8 @@ func (g *gen) malformed() string {
 	case 7:
 		return "spush ids=1 route=r data=0"
 	case 8:
-		return "sdel id=-1"
+		return []string{"sdel id=-1", "joinrange ch=a front=f1 lo=1 hi=99999", "leaverange ch=a front=f1 lo=1 hi=3 dir=sideways",
+			"saddpush ids=self,me route=r data=", "sdelpush id=2 ids=1 route=r", "leaverange ch=a front=f1 lo=5 hi=2 dir=up"}[r.Intn(6)]
 	}
 	return "freetemp slot=nope"
 }
@@ -598,12 +739,17 @@ func (g *gen) op() string {
 			return "freetemp slot=" + k
 		}
 		return "getch ch=@0"
-	case x < 91:
+	case x < 89:
 		h.Count("op.sadd")
 		return "sadd"
-	case x < 93:
+	case x < 91:
+		return g.sessCbOp()
+	case x < 92:
 		h.Count("op.sdel")
 		return fmt.Sprintf("sdel id=%d", 1+r.Intn(8))
+	case x < 93:
+		h.Count("op.sdelpush")
+		return g.sdelPush()
 	case x < 96:
 		h.Count("op.spush")
 		return g.pushOp("spush")
@@ -613,6 +759,188 @@ func (g *gen) op() string {
 	}
 	h.Count("op.malformed")
 	return g.malformed()
+}
+
+// selfIds: an id list for a push issued from OnSessionAdd; `self` is the id being handed out.
+func (g *gen) selfIds() string {
+	r := g.h.R
+	n := r.Intn(6)
+	parts := make([]string, 0, n+1)
+	for i := 0; i < n; i++ {
+		if r.Intn(3) == 0 {
+			parts = append(parts, "self")
+		} else {
+			parts = append(parts, strconv.Itoa(1+r.Intn(9)))
+		}
+	}
+	if r.Intn(4) != 0 {
+		i := r.Intn(len(parts) + 1)
+		parts = append(parts[:i], append([]string{"self"}, parts[i:]...)...)
+	}
+	return strings.Join(parts, ",")
+}
+
+func (g *gen) sessCbOp() string {
+	r := g.h.R
+	if r.Intn(2) == 0 {
+		g.h.Count("op.saddpush")
+		return fmt.Sprintf("saddpush ids=%s route=p%d data=%s", g.selfIds(), r.Intn(3), hx.Hex(g.h.Bytes(r.Intn(4))))
+	}
+	g.h.Count("op.saddbcast")
+	return fmt.Sprintf("saddbcast ch=%s route=j%d msg=m%d", g.ch(), r.Intn(3), r.Intn(1000))
+}
+
+// sdelPush: remove a session (mostly a live one) and push, from OnSessionRemove, to a list that names it.
+func (g *gen) sdelPush() string {
+	r := g.h.R
+	id := uint32(1 + r.Intn(8))
+	var live []uint32
+	for k := range w.fakes {
+		live = append(live, k)
+	}
+	sort.Slice(live, func(i, j int) bool { return live[i] < live[j] })
+	if len(live) > 0 && r.Intn(4) != 0 {
+		id = live[r.Intn(len(live))]
+	}
+	n := r.Intn(5)
+	ids := make([]uint32, 0, n+1)
+	for i := 0; i < n; i++ {
+		ids = append(ids, uint32(1+r.Intn(9)))
+	}
+	if r.Intn(5) != 0 {
+		i := r.Intn(len(ids) + 1)
+		ids = append(ids[:i], append([]uint32{id}, ids[i:]...)...)
+	}
+	return fmt.Sprintf("sdelpush id=%d ids=%s route=q%d data=%s", id, showIds(ids), r.Intn(3), hx.Hex(g.h.Bytes(r.Intn(4))))
+}
+
+// sessCase: the front-end half under a handler that pushes / broadcasts from inside its callbacks.
+func sessCase(h *hx.T, g *gen, run func(string)) {
+	r := h.R
+	g.slots, g.slotN = nil, 0
+	local := "f1"
+	if r.Intn(6) == 0 {
+		local = "f2"
+	}
+	run("reset local=" + local)
+	n := 8 + r.Intn(25)
+	for i := 0; i < n; i++ {
+		switch x := r.Intn(20); {
+		case x < 5:
+			h.Count("op.saddpush")
+			run(fmt.Sprintf("saddpush ids=%s route=p%d data=%s", g.selfIds(), r.Intn(3), hx.Hex(h.Bytes(r.Intn(4)))))
+		case x < 10:
+			h.Count("op.saddbcast")
+			run(fmt.Sprintf("saddbcast ch=%s route=j%d msg=m%d", chanNames[r.Intn(2)], r.Intn(3), r.Intn(1000)))
+		case x < 14:
+			h.Count("op.sdelpush")
+			run(g.sdelPush())
+		case x < 15:
+			run("sadd")
+		case x < 16:
+			run(fmt.Sprintf("sdel id=%d", 1+r.Intn(8)))
+		case x < 18:
+			run(fmt.Sprintf("bcast ch=%s route=r msg=m%d", chanNames[r.Intn(2)], r.Intn(1000)))
+		case x < 19:
+			run(fmt.Sprintf("leave ch=%s front=%s id=%d", chanNames[r.Intn(2)], local, 1+r.Intn(8)))
+		default:
+			run(g.pushOp("spush"))
+		}
+	}
+	h.Count("case.session-callbacks")
+}
+
+// bigCase: one group grows to 130..600 members (ids from a counter, optionally a run of
+// duplicates) and is then emptied from the newest end, the oldest end or at random, with a
+// broadcast after every chunk (single steps around the quarter marks of the capacities Go's
+// append produces: 256, 512, 848).
+func bigCase(h *hx.T, g *gen, run func(string), idx int) {
+	r := h.R
+	g.slots, g.slotN = nil, 0
+	front := frontNames[r.Intn(2)]
+	run("reset local=f1")
+	run("sadd")
+	run("sadd")
+	n := h.Pick(130, 200, 256, 257, 300, 512, 513, 600, 130+r.Intn(471), 130+r.Intn(471))
+	run(fmt.Sprintf("joinrange ch=a front=%s lo=1 hi=%d", front, n+1))
+	if r.Intn(3) == 0 {
+		d := 1 + r.Intn(30)
+		lo := 1 + r.Intn(n-d)
+		run(fmt.Sprintf("joinrange ch=a front=%s lo=%d hi=%d", front, lo, lo+d))
+		h.Count("big.with-duplicates")
+	}
+	run("join ch=a front=f3 id=7") // a second, small group that must stay untouched
+	run("bcast ch=a route=big msg=m0")
+	mode := idx % 3
+	h.Count([]string{"big.leave-newest-first", "big.leave-oldest-first", "big.leave-random"}[mode])
+	cur := func() []uint32 {
+		for _, t := range g.groups() {
+			if t.ch == "a" && t.front == front {
+				return t.ids
+			}
+		}
+		return nil
+	}
+	for step := 0; step < 400; step++ {
+		ids := cur()
+		k := len(ids)
+		if k == 0 {
+			break
+		}
+		chunk := 1 + k/(3+r.Intn(6))
+		for _, q := range []int{32, 64, 128, 212} {
+			if k > q-3 && k <= q+4 {
+				chunk = 1 + r.Intn(2)
+			}
+		}
+		if chunk > k {
+			chunk = k
+		}
+		switch mode {
+		case 0: // newest first: the tail of the list, last element first
+			sel := make([]uint32, chunk)
+			for i := range sel {
+				sel[i] = ids[k-1-i]
+			}
+			run(rangeOrIds("a", front, sel))
+		case 1:
+			run(rangeOrIds("a", front, append([]uint32(nil), ids[:chunk]...)))
+		default:
+			perm := r.Perm(k)[:chunk]
+			sel := make([]uint32, chunk)
+			for i, j := range perm {
+				sel[i] = ids[j]
+			}
+			run(fmt.Sprintf("leaveids ch=a front=%s ids=%s", front, showIds(sel)))
+		}
+		run(fmt.Sprintf("bcast ch=a route=big msg=m%d", step+1))
+	}
+	if len(cur()) != 0 {
+		h.Count("big.not-emptied")
+	}
+	run(fmt.Sprintf("join ch=a front=%s id=9", front))
+	run("bcast ch=a route=big msg=end")
+	h.Count(fmt.Sprintf("big.size>=%d", n/100*100))
+}
+
+// rangeOrIds renders a run of consecutive ids as a range op, anything else as an id list.
+func rangeOrIds(c, f string, sel []uint32) string {
+	up, down := true, true
+	for i := 1; i < len(sel); i++ {
+		if sel[i] != sel[i-1]+1 {
+			up = false
+		}
+		if sel[i]+1 != sel[i-1] {
+			down = false
+		}
+	}
+	switch {
+	case len(sel) > 1 && up:
+		return fmt.Sprintf("leaverange ch=%s front=%s lo=%d hi=%d dir=up", c, f, sel[0], sel[len(sel)-1]+1)
+	case len(sel) > 1 && down:
+		return fmt.Sprintf("leaverange ch=%s front=%s lo=%d hi=%d dir=down", c, f, sel[len(sel)-1], sel[0]+1)
+	}
+	return fmt.Sprintf("leaveids ch=%s front=%s ids=%s", c, f, showIds(sel))
 }
 
 func (g *gen) pushOp(kind string) string {
@@ -703,6 +1031,13 @@ func TestRun(t *testing.T) {
 	}
 	g := &gen{h: h}
 	n := hx.EnvInt("VERIF_N", 300)
+	nbig, nsess := hx.EnvInt("VERIF_BIG", 9), hx.EnvInt("VERIF_SESS", 60)
+	for i := 0; i < nbig; i++ {
+		bigCase(h, g, run, i)
+	}
+	for i := 0; i < nsess; i++ {
+		sessCase(h, g, run)
+	}
 	for i := 0; i < n; i++ {
 		runCase(h, g, run)
 	}
